@@ -473,8 +473,10 @@ class Report:
         self.cover = {"checked": 0, "sat": 0}
         self.fallbacks = []
         self.assumed_contracts = []
+        self.timing = {}
         self.bounded_only = set()
         self.baseline = set(load_baseline().get(pid, []))
+        self.hard = set(load_baseline().get(pid + ".undecided", []))
 
 
 def check_contract(rep: Report, repo, con, registry, known_open, budget_ms, kmax):
@@ -504,7 +506,13 @@ def check_contract(rep: Report, repo, con, registry, known_open, budget_ms, kmax
         rep.obls.append(o)
         rep.undecided.append(o)
         return
-    res = solve_all(G.instances, budget_ms=budget_ms, want_smt2=False)
+    skip = rep.hard if rep.tier == "quick" else set()
+    todo = [i for i in G.instances if i.oid not in skip]
+    solved = solve_all(todo, budget_ms=budget_ms, want_smt2=False)
+    it = iter(solved)
+    res = [next(it) if i.oid not in skip else
+           {"status": "undecided", "ms": 0.0, "model": None, "smt2": None, "backend": "none",
+            "reason": "recorded as undecided on the unchanged tree: attempted in the thorough tier only"} for i in G.instances]
     rep.solver_ms += sum(r["ms"] for r in res)
     by = aggregate(G, res, theory)
     open_oids = [o.oid for o in by.values() if o.status != "discharged"]
@@ -645,10 +653,14 @@ def run(pid, tier, seed, extra=None):
     cons = [c for c in cons if not (getattr(c, "expensive", False) and c.props[0] != pid)]
     try:
         for con in cons:
+            t_c = time.time()
             try:
                 check_contract(rep, repo, con, registry, known_open, budget_ms, kmax)
             except Exception:
                 rep.errors.append(f"{con.qual}: " + traceback.format_exc())
+            rep.timing[con.qual] = round(time.time() - t_c, 1)
+            if os.environ.get("Y0VC_TIMING"):
+                print(f"  [{rep.timing[con.qual]:6.1f}s] {con.qual}", file=sys.stderr)
         # bounded stand-in / CPython cross-check of the same contracts on the real functions
         undecided_funcs = {o.oid.split("/")[0] for o in rep.undecided}
         for con in cons:
@@ -732,6 +744,7 @@ def finish(rep: Report, cons):
         "extra_parts": rep.extra_parts,
         "lemmas_used": sorted(rep.lemmas),
         "solver_ms_total": round(rep.solver_ms, 1),
+        "seconds_per_function": rep.timing,
         "cover": rep.cover,
         "extraction_drops": DROPPED,
         "evaluations": max(bounded_evals, 1), "distinct_nontrivial": max(bounded_evals, 2),
